@@ -21,11 +21,15 @@ REQUIRED = ["debug helpers of the bins module called before further checks", "re
             "stored bin after coordinate edit checked", "bins.bins contract evaluations", "overlap pairs checked", "Feature.bin checked", "stored bin column checked",
             "stored bin checked after an update of a GTF database", "region(<edited Feature>) compared with the tuple form",
             "region(<merge() output>) compared with the tuple form", "queries on a primed handle after another handle moved the features",
-            "query forms (tuple, string, wider string) checked against a stored bin"]
+            "query forms (tuple, string, wider string) checked against a stored bin",
+            "Feature.bin checked for coordinates given in a non-int integer representation",
+            "stored bin checked for Feature objects built from non-int integer representations"]
 ASSUMPTIONS = [
     "the specification in gvmon/models/binspec.py is a faithful reading of the statement",
     "'bed' is judged through bins(s,e,'bed') == bins(s+1,e,'gff') for non-empty half-open intervals only",
     "for start > end (empty closed interval) only well-formedness of the result is asked",
+    "a coordinate handed to Feature() as an integral float / Decimal / Fraction / int subclass / decimal text denotes that "
+    "integer ('int-like' in the constructor's documentation); non-integral values are never generated",
 ]
 EXHAUSTIVE_NOTE = "all ordered pairs of the boundary set x {gff,bed} x {one,set} are executed (quick: reduced set; thorough: full set)"
 QUICK_SHARDS = 4
@@ -139,6 +143,10 @@ def execute(ctx, case):
         if hb != expect:
             ctx.violation(case, {"why": "_bin_from_dict %r != bins(start,end) %r" % (hb, expect)})
         drain(ctx, case)
+    elif kind == "intlike":
+        intlike_feature(ctx, case)
+    elif kind == "intlike_stored":
+        intlike_stored(ctx, case)
     elif kind == "edited":
         edited_insert(ctx, case)
     elif kind == "gtf_update":
@@ -281,6 +289,117 @@ def stale_query_feature(ctx, case):
         db.conn.close()
     except Exception as ex_:
         ctx.violation(case, {"why": "region(<Feature>) raised %r" % (ex_,)})
+    drain(ctx, case)
+
+# --- coordinates in integer *representations* other than int -----------------------------------------------------
+# "a Feature's bin always equals bins(start, end)": the pair is an integer pair, but a caller computes coordinates
+# (midpoints, scaled positions, values of a numeric table) and hands them over as whatever type the arithmetic gave.
+INT_REPS = ("int", "str", "float", "Decimal", "Fraction", "intsub")
+
+
+class _Pos(int):
+    """An int subclass (as numeric libraries and enums hand out)."""
+
+
+def as_rep(v, rep):
+    import decimal
+    import fractions
+
+    if rep == "str":
+        return str(v)
+    if rep == "float":
+        x = float(v)
+        assert x == v and x.is_integer()
+        return x
+    if rep == "Decimal":
+        return decimal.Decimal(v)
+    if rep == "Fraction":
+        return fractions.Fraction(v, 1)
+    if rep == "intsub":
+        return _Pos(v)
+    return int(v)
+
+
+def intlike_feature(ctx, case):
+    """Feature(start=<integer in some representation>, end=...) carries bins(start, end) of that integer pair, in
+    .bin and in the tuple that is written on insert."""
+    import gffutils
+    from gffutils import bins as B
+
+    s, e = case["start"], case["end"]
+    try:
+        f = gffutils.Feature(seqid="c", start=as_rep(s, case["srep"]), end=as_rep(e, case["erep"]), strand=case.get("strand", "."))
+        fb = f.bin
+        tb = f.astuple()[-1]
+        fs, fe = f.start, f.end
+    except Exception as ex:
+        contracts.drain()
+        ctx.violation(case, {"why": "Feature() with int-like coordinates raised %r" % (ex,)})
+        return
+    expect = B.bins(s, e, one=True)
+    ctx.mon("Feature.bin checked for coordinates given in a non-int integer representation")
+    why = S.check_one(s, e, fb)
+    if why or fb != expect:
+        ctx.violation(case, {"why": "Feature.bin %r of coordinates given as %s/%s is not bins(start, end) = %r%s"
+                                    % (fb, case["srep"], case["erep"], expect, (" (" + why + ")") if why else "")})
+    elif tb != expect:
+        ctx.violation(case, {"why": "astuple() bin %r of coordinates given as %s/%s is not bins(start, end) = %r"
+                                    % (tb, case["srep"], case["erep"], expect)})
+    elif fs != s or fe != e:
+        ctx.violation(case, {"why": "Feature.start/.end %r/%r do not denote the integers given" % (fs, fe)})
+    drain(ctx, case)
+
+
+def intlike_stored(ctx, case):
+    """Feature objects built from such coordinates and written (create_db from objects / update): the stored bin is
+    bins(start, end) of the stored coordinates and queries around the position find the feature."""
+    import gffutils
+    from gffutils import bins as B
+
+    feats = case["feats"]       # [(start, end, srep, erep)]
+    dbfn = ctx.tmp(".db")
+    try:
+        objs = [gffutils.Feature(seqid="chr1", source="src", featuretype="gene", start=as_rep(s, sr), end=as_rep(e, er),
+                                 strand="+", attributes={"ID": ["n%d" % i]}) for i, (s, e, sr, er) in enumerate(feats)]
+        if case["how"] == "create":
+            db = gffutils.create_db(iter(objs), dbfn)
+        else:
+            db = gffutils.create_db("chr1\tsrc\tgene\t100\t900\t.\t+\t.\tID=g0\n", dbfn, from_string=True)
+            prime(db)
+            db.update(objs, make_backup=False)
+        rows = {r[0]: r for r in db.conn.execute("SELECT id, start, end, bin FROM features")}
+        for i, (s, e, sr, er) in enumerate(feats):
+            fid = "n%d" % i
+            r = rows.get(fid)
+            ctx.mon("stored bin checked for Feature objects built from non-int integer representations")
+            if r is None or r[1] != s or r[2] != e:
+                ctx.violation(case, {"why": "feature %s not stored at the coordinates given" % fid, "row": [repr(x) for x in r] if r else None})
+                return
+            why = S.check_one(s, e, r[3])
+            if why or r[3] != B.bins(s, e, one=True):
+                ctx.violation(case, {"why": "stored bin %r of a Feature built from %s/%s coordinates is not bins(start, end) = %r"
+                                            % (r[3], sr, er, B.bins(s, e, one=True)), "feature": fid, "coords": [s, e]})
+                return
+            got = db[fid]
+            if got.bin != B.bins(s, e, one=True):
+                ctx.violation(case, {"why": "fetched Feature.bin %r is not bins(start, end)" % (got.bin,), "feature": fid, "coords": [s, e]})
+                return
+            if S.in_range(s, e) and s <= e:
+                q = ("chr1", max(1, s - 1), min(S.LIMIT - 1, e + 1))
+                hits = [x.id for x in db.region(q, completely_within=True)]
+                hits2 = [x.id for x in db.features_of_type("gene", limit=q)]
+                hits3 = [x.id for x in db.all_features(limit=q, completely_within=True)]
+                if fid not in hits or fid not in hits2 or fid not in hits3:
+                    ctx.violation(case, {"why": "a stored feature (built from %s/%s coordinates) is not found by a query around its position" % (sr, er),
+                                         "feature": fid, "coords": [s, e], "region": hits, "features_of_type": hits2, "all_features": hits3})
+                    return
+        db.conn.close()
+    except Exception as ex:
+        ctx.violation(case, {"why": "writing Feature objects with int-like coordinates raised %r" % (ex,), "how": case["how"]})
+    finally:
+        for p in (dbfn, dbfn + ".bak"):
+            if os.path.exists(p):
+                os.unlink(p)
     drain(ctx, case)
 
 
@@ -468,6 +587,34 @@ def run(ctx):
         case = {"kind": "feature", "start": s, "end": e, "strand": rng.choice(["+", "-", ".", "-"])}
         execute(ctx, case)
         ctx.case(("feature", s, e), nontrivial(s, e), sample=case, cls="Feature construction")
+    # 4b. the same, coordinates handed over in another integer representation (result of caller arithmetic)
+    for _ in range(ctx.budget(2400, 120000)):
+        if rng.random() < 0.6:
+            s = rng.choice(vals) + rng.randrange(-1, 2)
+            e = rng.choice(vals) + rng.randrange(-1, 2)
+        else:
+            s = rng.randrange(1, S.LIMIT)
+            e = min(S.LIMIT + 5, s + int(rng.expovariate(1 / 200000.0)))
+        if s < 0 or e < 0:
+            continue
+        srep = rng.choice(INT_REPS[1:])
+        erep = srep if rng.random() < 0.6 else rng.choice(INT_REPS)
+        case = {"kind": "intlike", "start": s, "end": e, "srep": srep, "erep": erep, "strand": rng.choice("+-.")}
+        execute(ctx, case)
+        ctx.case(("intlike", s, e, srep, erep), nontrivial(s, e), sample=case if rng.random() < 0.01 else None,
+                 cls="Feature construction from int-like coordinates")
+    inr3 = [v for v in vals if 1 <= v < S.LIMIT - 10]
+    for _ in range(ctx.budget(48, 1600)):
+        feats = []
+        for _ in range(8):
+            s = rng.choice(inr3) if rng.random() < 0.7 else rng.randrange(1, S.LIMIT - 2 ** 21)
+            e = min(S.LIMIT - 1, s + rng.choice([0, 1, 2, 500, 70000, 2 ** 17, 2 ** 20 + 3]))
+            srep = rng.choice(INT_REPS[1:])
+            feats.append((s, e, srep, srep if rng.random() < 0.6 else rng.choice(INT_REPS)))
+        case = {"kind": "intlike_stored", "how": rng.choice(["create", "update"]), "feats": feats}
+        execute(ctx, case)
+        ctx.case(("intlike_stored", case["how"], feats), True, sample=case if rng.random() < 0.1 else None,
+                 cls="Feature objects with int-like coordinates stored")
     # 5. stored bin column
     for _ in range(ctx.budget(40, 1600)):
         coords = []
